@@ -16,7 +16,8 @@ import (
 func init() {
 	register(&RuleSet{
 		ID: "C11",
-		Explanation: "R9 the local storage back end's object writer opens files truncating (a rewritten manifest keeps no stale tail). " +
+		Explanation: "R10 existence probes: an in-repo implementation of the storage client's Exists answers a result that can be true only where the error of its probing call is known nil (cannot-tell is not exists). " +
+			"R9 the local storage back end's object writer opens files truncating (a rewritten manifest keeps no stale tail). " +
 			"In sign/gcsca (the only storage-backed authority; localca wraps it). Storage writes are calls of storage/ops.WriteFile (and direct Storage.Writer invokes); a write is the manifest write when its object-name operand is the constant gcsca.ManifestObjectName. " +
 			"R1 (ESP on Finalize): no object write after the manifest write on any path. R2 (ESP): the manifest write is unreachable after a failed object write / failed upload step. " +
 			"R3 (who-may-call): storage writes in gcsca occur only in the no-clobber gate (the function that invokes Storage.Exists) and the manifest writer; the manifest writer is reachable only from Finalize; packages rotate and testing/nonprod/localca perform no storage writes of their own. " +
@@ -34,6 +35,7 @@ func init() {
 }
 
 func runC11(c *Ctx) {
+	defer c11ExistenceProbes(c)
 	// R9: the local storage back end replaces an object wholly when it is rewritten (a shorter manifest over a longer
 	// one keeps no stale tail): file-opening primitives in the closure of its Writer are truncating.
 	{
@@ -654,4 +656,71 @@ func (c *Ctx) uploadEntryRule(rule string, gates map[*ssa.Function]bool, finClos
 		}
 	}
 	c.S.Floor(rule, "certificate upload functions (gate + manifest) in gcsca", 1, nUp)
+}
+
+// c11ExistenceProbes is R10: "exists" is only answered after the probe succeeded. The upload gate skips an object that
+// already exists (keep_going) and still records it in the manifest, so a storage back end that answers (true, nil) when
+// it could not tell (a failed stat that is not "not found") makes the manifest name a certificate that was never
+// stored. For every in-repo implementation of the storage client's Exists: a return whose first result can be true is
+// dominated by the nil edge of the error of the probing call made in the function.
+func c11ExistenceProbes(c *Ctx) {
+	n := 0
+	for _, f := range c.P.RepoFunctions() {
+		if f.Name() != "Exists" || f.Signature.Recv() == nil || f.Blocks == nil || f.Synthetic != "" || c.isTestFunc(f) {
+			continue
+		}
+		res := f.Signature.Results()
+		if res.Len() != 2 || res.At(0).Type().String() != "bool" || errIndex(f.Signature) != 1 {
+			continue
+		}
+		rel := load.RelPkg(f)
+		if !strings.HasPrefix(rel, "storage") && rel != "testing/storage" {
+			continue
+		}
+		// the error values of the fallible calls made here
+		var errs []ssa.Value
+		for _, b := range f.Blocks {
+			for _, in := range b.Instrs {
+				switch x := in.(type) {
+				case *ssa.Extract:
+					if call, ok := x.Tuple.(*ssa.Call); ok && isErrorType(x.Type()) && call != nil {
+						errs = append(errs, x)
+					}
+				case *ssa.Call:
+					if isErrorType(x.Type()) {
+						errs = append(errs, x)
+					}
+				}
+			}
+		}
+		if len(errs) == 0 {
+			continue // answers from memory: nothing can fail
+		}
+		n++
+		ok, at := true, f.Pos()
+		for _, b := range f.Blocks {
+			ret, isRet := b.Instrs[len(b.Instrs)-1].(*ssa.Return)
+			if !isRet {
+				continue
+			}
+			if k, isK := ret.Results[0].(*ssa.Const); isK && k.Value != nil && !constant.BoolVal(k.Value) {
+				continue // "does not exist" / failure
+			}
+			guarded := false
+			for _, e := range errs {
+				if errKnownNil(b, e) {
+					guarded = true
+				}
+			}
+			if !guarded {
+				ok, at = false, ret.Pos()
+			}
+		}
+		c.S.Check(ok, "R10", load.FuncName(f)+":exists only after a successful probe", c.pos(at), "a result that can be true is returned only where the probe's error is known nil", "Exists can answer true on a path where the probing call's error was not found nil: \"cannot tell\" (a failed stat other than not-found) reads as \"exists\", the upload is skipped and the manifest names a certificate that was never stored")
+	}
+	c.S.Floor("R10", "fallible existence probes of storage back ends", 2, n)
+}
+
+func isErrorType(t types.Type) bool {
+	return types.Identical(t, types.Universe.Lookup("error").Type())
 }
